@@ -312,9 +312,9 @@ esl_sq_Copy(const ESL_SQ *src, ESL_SQ *dst)
       if (src->ss != NULL) {
 	strcpy(dst->ss+1, src->ss);
 	dst->ss[0] = '\0';
-	for (x = 0; x < src->nxr; x++) 
-	  if (src->xr[x] != NULL) { strcpy(dst->xr[x]+1, src->xr[x]); dst->xr[x][0] = '\0'; }
-     }
+      }
+      for (x = 0; x < src->nxr; x++)   /* the extra residue markup does not depend on <ss> being present */
+	if (src->xr[x] != NULL) { strcpy(dst->xr[x]+1, src->xr[x]); dst->xr[x][0] = '\0'; }
     }
   else if (src->dsq != NULL && dst->seq != NULL) /* digital to text */
     {
